@@ -58,8 +58,143 @@ fn gen_case(ctx: &Ctx, rng: &mut Rng, idx: u64) -> Case {
             gen::large_case(rng, variant, kind, cap)
         }
         3 => gen::adversarial_case(rng, variant),
+        // dense byte-wise layouts around exact block fills: cheap (a few hundred states), and the
+        // table monitor inspects every transition of each of them
+        4..=9 => gen::dense_random(rng, kind),
         _ => gen::small_case(rng, variant, kind, false),
     }
+}
+
+/// case index of the > 4 GiB haystack probe (thorough tier only)
+pub const HUGE_STREAM_IDX: u64 = 13;
+
+/// A haystack of more than 2^32 bytes, streamed through the byte-iterator entry points (nothing is
+/// allocated): offsets beyond u32::MAX must be reported exactly. Expected matches are known
+/// analytically: the filler byte occurs in no pattern.
+fn huge_stream_probe(ctx: &mut Ctx, which: Which, idx: u64) {
+    use daachorse::{CharwiseDoubleArrayAhoCorasick, DoubleArrayAhoCorasick};
+    ctx.rep.evaluations += 1;
+    ctx.rep.note("workloads", "W14-haystack-longer-than-4GiB");
+    let pats = ["ab", "é", "b"];
+    let tail: &[u8] = "xabéxbab".as_bytes();
+    let fill: u64 = (1u64 << 32) + 3;
+    let stream = || (0..fill).map(|_| b'x').chain(tail.iter().copied());
+    let base = fill as usize;
+    // occurrences in the tail "xabéxbab": ab@1..3, b@2..3, é@3..5, b@6..7, ab@7..9?  (tail = x a b é(2) x b a b)
+    // indices: x0 a1 b2 é3-4 x5 b6 a7 b8
+    let all: Vec<(usize, usize, u32)> = vec![(1, 3, 0), (2, 3, 2), (3, 5, 1), (6, 7, 2), (7, 9, 0), (8, 9, 2)];
+    let shift = |v: &[(usize, usize, u32)]| -> Vec<(usize, usize, u32)> { v.iter().map(|&(s, e, x)| (s + base, e + base, x)).collect() };
+    let overlap = shift(&all);
+    let nosuffix = shift(&[(1, 3, 0), (3, 5, 1), (6, 7, 2), (7, 9, 0)]);
+    let find = shift(&[(1, 3, 0), (3, 5, 1), (6, 7, 2), (7, 9, 0)]);
+    let bw = DoubleArrayAhoCorasick::<u32>::new(pats).expect("harness: probe build");
+    let cw = CharwiseDoubleArrayAhoCorasick::<u32>::new(pats).expect("harness: probe build");
+    let mut runs: Vec<(String, Vec<(usize, usize, u32)>, Vec<(usize, usize, u32)>)> = Vec::new();
+    let col = |it: &mut dyn Iterator<Item = daachorse::Match<u32>>| -> Vec<(usize, usize, u32)> { it.take(64).map(|m| (m.start(), m.end(), m.value())).collect() };
+    match which {
+        Which::C01 => {
+            runs.push(("byte-wise find_overlapping_iter_from_iter".into(), col(&mut bw.find_overlapping_iter_from_iter(stream())), overlap.clone()));
+            runs.push(("char-wise find_overlapping_iter_from_iter".into(), col(&mut unsafe { cw.find_overlapping_iter_from_iter(stream()) }), overlap.clone()));
+        }
+        Which::C02 => {
+            runs.push(("byte-wise find_iter_from_iter".into(), col(&mut bw.find_iter_from_iter(stream())), find.clone()));
+            runs.push(("char-wise find_iter_from_iter".into(), col(&mut unsafe { cw.find_iter_from_iter(stream()) }), find.clone()));
+        }
+        Which::C05 => {
+            runs.push(("byte-wise find_overlapping_no_suffix_iter_from_iter".into(), col(&mut bw.find_overlapping_no_suffix_iter_from_iter(stream())), nosuffix.clone()));
+            runs.push(("char-wise find_overlapping_no_suffix_iter_from_iter".into(), col(&mut unsafe { cw.find_overlapping_no_suffix_iter_from_iter(stream()) }), nosuffix.clone()));
+        }
+    }
+    for (name, got, exp) in runs {
+        ctx.rep.count("huge_stream_searches", 1);
+        if got != exp {
+            ctx.rep.violation(
+                "reference-model",
+                format!("{name} over a haystack of 2^32+11 bytes returned a different match sequence than expected"),
+                idx,
+                crate::json::J::obj()
+                    .set("patterns", crate::json::J::s("ab, é, b"))
+                    .set("haystack", crate::json::J::s("'x' repeated 2^32+3 times, then \"xabéxbab\""))
+                    .set("got", crate::json::J::Str(format!("{got:?}")))
+                    .set("expected", crate::json::J::Str(format!("{exp:?}"))),
+            );
+        }
+    }
+    ctx.rep.nontrivial.insert(0x11a1_7100 + which as u64);
+}
+
+/// case index of the documented-limit probe (byte-wise automaton with 2^24-1 patterns)
+pub const LIMIT_PROBE_IDX: u64 = 12;
+
+/// The byte-wise automaton documents a maximum of 2^24-1 patterns. Build exactly that many (all
+/// 3-byte strings but one; ~1.5 GB, a few seconds) and compare the searches with the analytically
+/// known answer (every 3-byte window except ff ff ff matches, value = its number). Also: if a
+/// collection of 2^24 patterns is *accepted* (the documentation says it is rejected), the automaton
+/// must still answer correctly.
+fn limit_probe(ctx: &mut Ctx, which: Which, idx: u64) {
+    use daachorse::DoubleArrayAhoCorasickBuilder;
+    ctx.rep.evaluations += 1;
+    ctx.rep.note("workloads", "W13-documented-limit-probe");
+    for n in [(1usize << 24) - 1, 1usize << 24] {
+        let it = (0..n as u32).map(|i| ([(i >> 16) as u8, (i >> 8) as u8, i as u8], i));
+        let built = std::panic::catch_unwind(|| DoubleArrayAhoCorasickBuilder::new().build_with_values::<_, _, u32>(it));
+        let p = match built {
+            Ok(Ok(p)) => p,
+            Ok(Err(e)) => {
+                if n < (1 << 24) {
+                    ctx.rep.count("build_failed_on_valid_input", 1);
+                    ctx.rep.note("build_errors", &format!("limit probe, {n} patterns: {e}"));
+                }
+                continue;
+            }
+            Err(_) => {
+                ctx.rep.count("build_failed_on_valid_input", 1);
+                ctx.rep.note("build_errors", &format!("limit probe, {n} patterns: PANICKED"));
+                continue;
+            }
+        };
+        ctx.rep.count("limit_probe_automata", 1);
+        let hay: Vec<u8> = vec![0, 0, 0, 1, 0x7f, 0xff, 0xff, 0xff, 0xff, 0xfe, 0xff, 0xff, 0xfd, 0xff, 0xff, 0xff];
+        let win: Vec<(usize, usize, u32)> = (0..hay.len() - 2)
+            .filter_map(|s| {
+                let v = (u32::from(hay[s]) << 16) | (u32::from(hay[s + 1]) << 8) | u32::from(hay[s + 2]);
+                if (v as usize) < n { Some((s, s + 3, v)) } else { None }
+            })
+            .collect();
+        let mut nonover = Vec::new();
+        let mut prev = 0;
+        for &(s, e, v) in &win {
+            if s >= prev {
+                nonover.push((s, e, v));
+                prev = e;
+            }
+        }
+        let checks: Vec<(&str, Vec<(usize, usize, u32)>, Vec<(usize, usize, u32)>)> = match which {
+            Which::C01 => vec![
+                ("find_overlapping_iter", p.find_overlapping_iter(&hay).map(|m| (m.start(), m.end(), m.value())).collect(), win.clone()),
+                ("find_overlapping_iter_from_iter", p.find_overlapping_iter_from_iter(hay.iter().copied()).map(|m| (m.start(), m.end(), m.value())).collect(), win.clone()),
+            ],
+            Which::C02 => vec![("find_iter", p.find_iter(&hay).map(|m| (m.start(), m.end(), m.value())).collect(), nonover.clone())],
+            Which::C05 => vec![("find_overlapping_no_suffix_iter", p.find_overlapping_no_suffix_iter(&hay).map(|m| (m.start(), m.end(), m.value())).collect(), win.clone())],
+        };
+        for (name, got, exp) in checks {
+            ctx.rep.count("matches_compared", exp.len() as u64);
+            if got != exp {
+                ctx.rep.violation(
+                    "reference-model",
+                    format!("{name} on the byte-wise automaton of {n} three-byte patterns returned a different match sequence than expected"),
+                    idx,
+                    crate::json::J::obj()
+                        .set("patterns", crate::json::J::s("all 3-byte strings i.to_be_bytes()[1..] for i in 0..n, value i"))
+                        .set("n", crate::json::J::us(n))
+                        .set("haystack", crate::json::bytes_j(&hay))
+                        .set("got", crate::case::matches_j(&got, 20))
+                        .set("expected", crate::case::matches_j(&exp, 20)),
+                );
+            }
+        }
+    }
+    ctx.rep.nontrivial.insert(0x11a1_7000 + which as u64);
 }
 
 #[derive(Clone, Copy, PartialEq, Eq)]
@@ -76,6 +211,14 @@ pub fn run_case(ctx: &mut Ctx, which: Which, idx: u64) {
         Which::C05 => "C05",
     };
     let mut rng = Rng::for_case(ctx.seed, stream, idx);
+    if idx == LIMIT_PROBE_IDX && ctx.mode == Mode::Native {
+        limit_probe(ctx, which, idx);
+        return;
+    }
+    if idx == HUGE_STREAM_IDX && ctx.mode == Mode::Native && ctx.tier == Tier::Thorough {
+        huge_stream_probe(ctx, which, idx);
+        return;
+    }
     let case = gen_case(ctx, &mut rng, idx);
     let spec = case.spec;
     if ctx.replay {
